@@ -99,15 +99,19 @@ pub fn run_case(gen: &Gen, dir: std::path::PathBuf, c: &CaseSpec) -> Result<Stri
 /// two runs - on a fresh engine per run (one-shot commands) or on one
 /// engine used for both (the server) - with the publication unchanged
 /// (stored path) or replaced by a newer version with the same nextUpdate
-/// (fetch path).
+/// (fetch path), or replaced by a newer version that is fresh but lists a
+/// file that is not there, so that its update is abandoned and the stored,
+/// by now stale version is what there is.
 #[derive(Clone, Debug)]
-pub struct Ageing { pol: Stale, reuse_engine: bool, crl: bool, republish: bool }
+pub struct Ageing { pol: Stale, reuse_engine: bool, crl: bool,
+    /// 0: unchanged; 1: newer version, same nextUpdate; 2: newer, fresh, one listed file missing
+    republish: u8 }
 
 const AGE: i64 = 8;
 
 fn ageing_cases() -> Vec<Ageing> {
     let mut res = Vec::new();
-    for pol in POLICIES { for reuse_engine in [false, true] { for crl in [false, true] { for republish in [false, true] {
+    for pol in POLICIES { for reuse_engine in [false, true] { for crl in [false, true] { for republish in [0u8, 1, 2] {
         res.push(Ageing { pol, reuse_engine, crl, republish });
     }}}}
     res
@@ -126,6 +130,14 @@ fn ageing_case(gen: &Gen, dir: std::path::PathBuf, c: &Ageing) -> Result<String,
     };
     let image = Builder::at(gen, Stale::Accept, now).build(&tree(1));
     let image2 = Builder::at(gen, Stale::Accept, now).build(&tree(2));
+    let image3 = {
+        let mut spec = rpkigen::base_tree();
+        let ca = spec.tals[0].ca.find_mut("ca1").unwrap();
+        ca.mft_number = 2;
+        ca.mft_this_update += 60;
+        ca.objs[0].fault = Some(rpkigen::Fault::Missing);
+        Builder::at(gen, Stale::Accept, now).build(&spec)
+    };
     let case = Case::new(dir);
     case.publish(&image);
     case.write_tals(&image);
@@ -139,7 +151,7 @@ fn ageing_case(gen: &Gen, dir: std::path::PathBuf, c: &Ageing) -> Result<String,
         return Err(("harness".into(), "fresh manifest not fully served".into()))
     }
     std::thread::sleep(std::time::Duration::from_secs(AGE as u64 + 1).saturating_sub(started.elapsed()));
-    if c.republish { case.publish(&image2); }
+    match c.republish { 1 => case.publish(&image2), 2 => case.publish(&image3), _ => { } }
     let r2 = if c.reuse_engine { etree::run_on(&engine, &config, &LocalExceptions::empty()) }
         else { etree::run(&config, false, &LocalExceptions::empty()) }.map_err(err)?;
     let served = payload_set(&r2.data);
@@ -150,7 +162,7 @@ fn ageing_case(gen: &Gen, dir: std::path::PathBuf, c: &Ageing) -> Result<String,
         return Err((class.into(), format!(
             "{} of ca1 aged past nextUpdate between two runs ({}, {}) under {:?}: served {} items, expected {}",
             if c.crl { "CRL" } else { "manifest" }, if c.reuse_engine { "same engine" } else { "fresh engine" },
-            if c.republish { "newer version published" } else { "publication unchanged" }, c.pol, served.len(), want.len()
+            ["publication unchanged", "newer version published", "newer, fresh version published whose update is abandoned for a missing file"][c.republish as usize], c.pol, served.len(), want.len()
         )))
     }
     let _ = std::fs::remove_dir_all(&case.dir);
@@ -193,7 +205,10 @@ pub fn run(ctx: &Ctx) -> Report {
         real ageing: ca1's manifest / CRL passes its nextUpdate (8 s) \
         between two runs, on a fresh engine per run and on one engine \
         used for both (as the server does), with the publication \
-        unchanged or replaced by a newer version, under each policy; \
+        unchanged, replaced by a newer version of the same age, or \
+        replaced by a newer fresh version that lists a missing file (its \
+        update is abandoned; the stored, stale version is what there \
+        is), under each policy; \
         non-trivial = all (every case carries a fault)".into();
     rep.bound = format!("{} cases", cases.len());
     let threads = std::env::var("ETREE_THREADS").ok().and_then(|s| s.parse().ok()).unwrap_or(8);
